@@ -14,10 +14,12 @@ use serde_json::json;
 
 pub struct C15;
 
-const PIECES: [&str; 22] = [
+const PIECES: [&str; 27] = [
     "a", " ", "{", "}", "\\\\", "\\\"", "\\$", "\\n", "\\r", "\\x41", "é", "€", "😀", "\n", "\\x0a",
     "\\x4A", "\\x7e", // valid
     "\\q", "\\x4", "\\xg1", "$", "\\",
+    // not hex digits: non-ASCII characters whose code point ends in the byte of one
+    "\\x4\u{441}", "\\x\u{430}1", "\\x4é", "\\x\u{ff11}0", "\\\u{144}",
 ];
 const N_VALID: usize = 17;
 
